@@ -186,4 +186,70 @@ def methodAt (t : TableT) (c : ClassDecl) (name : Name) : Lookup (ClassDecl × L
 def getPublicMethod (t : TableT) (self : ClassDecl) (name : Name) : Lookup (ClassDecl × List MethodData) :=
   Repaired.findMapSelfAndBaseClasses t.erase self fun cls => methodAt t cls name
 
+/-! ### scoped names as a query (get-type-scoped / resolve-type-scoped of core.rs)
+
+  `A::B::C` is looked up part by part.  Only the FIRST part may come from elsewhere (resolve-type-scoped: the enclosing
+  scopes of the starting point; get-type-scoped: the starting point alone); every further part must be a nested type of
+  what came before — for a class: a nested enum the class or one of its public ancestors declares (unresolved super
+  classes are not reported) — never something that is merely VISIBLE from there (a top-level class, a builtin, a module
+  enum, the class itself, an enumerator).  Enums and builtins have no nested types. -/
+
+/-- what a (scoped) type name denotes -/
+inductive Named where
+  | cls (d : ClassDecl)
+  /-- a nested enum, with the class that declares it -/
+  | nested (owner : ClassDecl) (name : Name)
+  /-- a module-level enum -/
+  | topEnum (name : Name)
+  /-- a type of the builtins (`qreal` is an alias of `double`) -/
+  | prim (name : Name)
+deriving DecidableEq, Repr
+
+/-- the get-type of what a name denotes: nested types only -/
+def namedGetType (t : Table) : Named → Name → Option Named
+  | .cls c, n =>
+    match Repaired.getType t c n with
+    | .found x => some (.nested x.1 x.2.name)
+    | _ => none
+  | _, _ => none
+
+/-- the module's own names: classes and module-level enums (the builtins are an IMPORT of the module) -/
+def moduleGetType (t : Table) (n : Name) : Option Named :=
+  match lookupClass t.classes n with
+  | some c => some (.cls c)
+  | none => if n ∈ t.others ∧ n ∉ builtinNames then some (.topEnum n) else none
+
+/-- resolve-type from the module: its own names, then the builtins -/
+def moduleResolveType (t : Table) (n : Name) : Option Named :=
+  match moduleGetType t n with
+  | some x => some x
+  | none => if n ∈ builtinNames then some (.prim (if n = "qreal" then "double" else n)) else none
+
+/-- resolve-type from a class: its nested types (own and inherited), then the enclosing module, then the builtins -/
+def classResolveType (t : Table) (c : ClassDecl) (n : Name) : Option Named :=
+  match namedGetType t (.cls c) n with
+  | some x => some x
+  | none => moduleResolveType t n
+
+/-- the fold over the remaining parts: each a nested type of the one before -/
+def scopedTail (t : Table) : Option Named → List Name → Option Named
+  | acc, [] => acc
+  | none, _ :: _ => none
+  | some x, n :: rest => scopedTail t (namedGetType t x n) rest
+
+/-- get-type-scoped on the module -/
+def moduleGetTypeScoped (t : Table) : List Name → Option Named
+  | [] => none
+  | h :: rest => scopedTail t (moduleGetType t h) rest
+
+/-- get-type-scoped on a class -/
+def classGetTypeScoped (t : Table) (c : ClassDecl) : List Name → Option Named
+  | [] => none
+  | h :: rest => scopedTail t (namedGetType t (.cls c) h) rest
+
+/-- resolve-type-scoped on a class (what member types go through: `resolveNamed` is its success/failure) -/
+def classResolveTypeScoped (t : Table) (c : ClassDecl) : List Name → Option Named
+  | [] => none
+  | h :: rest => scopedTail t (classResolveType t c h) rest
+
 end QV.Model.ClassGraph.Typed
